@@ -87,6 +87,8 @@ pub struct SimNode {
     /// own broadcast chunks captured from rx_bcast, by version
     pub bcast_buf: BTreeMap<u64, Vec<ChangeV1>>,
     pub bcast_other: Vec<ChangeV1>,
+    /// receiving end of the ingest channel (taken by checks that run the real handle_changes loop)
+    pub rx_changes: Option<CorroReceiver<(ChangeV1, ChangeSource)>>,
     _keep: Box<dyn std::any::Any + Send>,
 }
 
@@ -145,7 +147,6 @@ impl SimNode {
             gossip_server_endpoint,
             transport,
             api_listeners,
-            rx_changes,
             rx_foca,
             rtt_rx,
             subs_manager,
@@ -155,11 +156,53 @@ impl SimNode {
             tw_worker,
             tw_tx,
         ));
-        Ok(SimNode { idx, agent, bookie, rx_bcast, rx_apply, rx_clear: rx_clear_buf, clear_tx, dir, pending_apply: Default::default(), triggers_seen: Default::default(), bcast_buf: Default::default(), bcast_other: vec![], _keep: keep })
+        Ok(SimNode { idx, agent, bookie, rx_bcast, rx_apply, rx_clear: rx_clear_buf, clear_tx, dir, pending_apply: Default::default(), triggers_seen: Default::default(), bcast_buf: Default::default(), bcast_other: vec![], rx_changes: Some(rx_changes), _keep: keep })
     }
 
     pub fn actor(&self) -> ActorId {
         self.agent.actor_id()
+    }
+
+    /// Copy the database files as a process crash would leave them (db + wal; the harness is between
+    /// two commits, no writer is active).
+    pub fn crash_image(&self, to: &Path) -> SimResult<()> {
+        std::fs::create_dir_all(to)?;
+        for f in ["corrosion.db", "corrosion.db-wal"] {
+            let src = self.dir.join(f);
+            if src.exists() {
+                std::fs::copy(&src, to.join(f))?;
+            }
+        }
+        Ok(())
+    }
+
+    /// Re-open a crash image as a harness-driven node.  `setup()` is the real code; the per-actor
+    /// bookkeeping reload that `run_root::run` performs is replicated here (the real reload path is
+    /// checked separately through `start_with_config`, see C06).
+    pub async fn reopen(idx: usize, dir: PathBuf) -> SimResult<Self> {
+        let mut node = Self::with_config(idx, dir.clone(), node_config(&dir)).await?;
+        let actors: Vec<ActorId> = {
+            let conn = node.agent.pool().read().await?;
+            tokio::task::block_in_place(|| {
+                conn.prepare("SELECT site_id FROM crsql_site_id WHERE ordinal > 0 UNION SELECT DISTINCT site_id FROM __corro_seq_bookkeeping")?
+                    .query_map([], |r| r.get(0))?
+                    .collect::<rusqlite::Result<Vec<ActorId>>>()
+            })?
+        };
+        for a in actors {
+            if a == node.actor() {
+                continue;
+            }
+            let bv = node.reloaded(a).await?;
+            for (v, p) in bv.partials.iter() {
+                if p.seqs.gaps(&(CrsqlSeq(0)..=p.last_seq)).next().is_none() {
+                    node.pending_apply.insert((a, v.0));
+                    node.triggers_seen.insert((a, v.0));
+                }
+            }
+            node.bookie.write::<&str, _>("reopen", None).await.replace_actor(a, bv);
+        }
+        Ok(node)
     }
 
     /// run one write request through the real HTTP handler
